@@ -15,6 +15,11 @@ static Result run_c07(const Case &c) {
     if (legacy) setenv("LIBERASURECODE_WRITE_LEGACY_CRC", "1", 1); else unsetenv("LIBERASURECODE_WRITE_LEGACY_CRC");
     Instance in(g);
     if (!in.ok()) { unsetenv("LIBERASURECODE_WRITE_LEGACY_CRC"); r.fail("create refused rc=" + std::to_string(in.desc)); return r; }
+    // "pure function of (configuration, data)": also of nothing the descriptor did before
+    unsetenv("LIBERASURECODE_WRITE_LEGACY_CRC");       // (the earlier calls run with the switch off: their expected outputs are the standard ones)
+    prehistory(in.desc, g, c.ints("hist"), r);
+    if (!r.ok) return r;
+    if (legacy) setenv("LIBERASURECODE_WRITE_LEGACY_CRC", "1", 1);
     Stripe s = encode(in.desc, g, data);
     unsetenv("LIBERASURECODE_WRITE_LEGACY_CRC");
     if (s.rc != 0) { r.fail("encode failed rc=" + std::to_string(s.rc)); return r; }
@@ -49,6 +54,7 @@ static Case gen_c07() {
     size_t cap = opts().tier == "thorough" ? (1 << 20) : (1 << 18);
     gen_buffer(c, "data", gen_length(g, cap));
     c.set("legacy", coin(1, 4) ? 1 : 0);
+    if (coin()) c.setv("hist", gen_prehistory());
     return c;
 }
 // every back end, every shape once
@@ -286,6 +292,9 @@ static Result run_c04_parity(const Case &c) {
     std::vector<uint8_t> data = expand_buffer(c, "data");
     Instance in(g);
     if (!in.ok()) { r.fail("create refused"); return r; }
+    // bit-stable: the parity bytes do not depend on what the descriptor decoded or rebuilt before
+    prehistory(in.desc, g, c.ints("hist"), r);
+    if (!r.ok) return r;
     Stripe s = encode(in.desc, g, data);
     if (s.rc != 0) { r.fail("encode failed"); return r; }
     auto want = ref::encode_payloads(g, data.data(), data.size());
@@ -378,6 +387,7 @@ static Case gen_c04_parity() {
     if (coin(1, 4)) len = len > 0 ? len - (size_t)pick(0, std::min<int64_t>(len - 1, 2 * g.k)) : 0;
     if (!blocking) len = std::min<size_t>(len, 1 << 17);
     gen_buffer(c, "data", len);
+    if (coin()) c.setv("hist", gen_prehistory());
     return c;
 }
 // enumerated cache-blocking boundaries: payload = ((2^a / streams) & ~(align-1)) * factor
